@@ -17,7 +17,21 @@ sys.path.insert(0, os.path.dirname(os.path.dirname(os.path.abspath(__file__))))
 from sim import core, registry  # noqa: E402
 
 
+def enable_jax_cache():
+    d = os.environ.get('VERIF_JAXCACHE')
+    if not d:
+        return
+    try:
+        import jax
+        jax.config.update('jax_compilation_cache_dir', d)
+        jax.config.update('jax_persistent_cache_min_compile_time_secs', 1.0)
+        jax.config.update('jax_persistent_cache_min_entry_size_bytes', 0)
+    except Exception:
+        pass
+
+
 def load_engine(prop):
+    enable_jax_cache()
     spec = registry.PROPS[prop]
     return registry.engine_module(spec['engine']), spec
 
